@@ -29,13 +29,14 @@ Theorem C03_equal_keys_meet : forall {A} (blocks : list nat) (b r : nat) (e1 e2 
   addressed SGroupBy blocks b r (e1, hash, rnd1) = addressed SGroupBy blocks b r (e2, hash, rnd2).
 Proof. exact @group_by_same_replica. Qed.
 
-(** watermarks, end-of-iteration and termination markers reach every connected replica *)
-Theorem C03_control_reaches_all : forall {A} (s : strategy) (m : batch_mode) (blocks : list nat)
-    (l : list (elem A * N * N)) (hash rnd : N) (b r : nat),
+(** watermarks, end-of-iteration and termination markers reach every connected replica
+    (every batch mode, every clock) *)
+Theorem C03_control_reaches_all : forall {A} (clock : nat -> N) (t0 : N) (s : strategy) (m : batch_mode)
+    (blocks : list nat) (l : list (elem A * N * N)) (hash rnd : N) (b r : nat),
   b < length blocks -> r < nth b blocks 0 ->
   (forall x, In x l -> fst (fst x) <> Terminate) ->
-  match m with BFixed n => 1 <= n | BSingle => True end ->
-  filter is_ctrl (received (run (end_machine s m blocks) (l ++ [(Terminate, hash, rnd)])) b r)
+  match m with BFixed n => 1 <= n | BAdaptive n _ => 1 <= n | BSingle => True end ->
+  filter is_ctrl (received (run (end_machine clock t0 s m blocks) (l ++ [(Terminate, hash, rnd)])) b r)
   = filter is_ctrl (map (fun x => fst (fst x)) l) ++ [Terminate].
 Proof. exact @end_control_reaches_all. Qed.
 
